@@ -16,13 +16,13 @@ Each read is compared with a plain-Python reference model of the statement:
    regression      rewards(a) = -|a - y| on a grid
    all             number and order = the examples, or the real pipes.Reservoir(take) applied to the example indexes
 """
-import itertools
+import itertools, json, os, subprocess, sys
 
-from vf.core import Check
+from vf.core import Check, HarnessError, REPO, VERIF, jsonable
 
 from coba.environments import Environments, SupervisedSimulation, CsvSource, ArffSource, LibSvmSource, ManikSource
 from coba.pipes import ListSource, Pipes, HeadRows, Reservoir, LabelRows
-from coba.primitives import Categorical, Dense, Sparse
+from coba.primitives import Categorical, Dense, Sparse, Source
 from coba.context import CobaContext, NullLogger, MemoryCacher
 
 CobaContext.logger = NullLogger()
@@ -36,33 +36,38 @@ LEVELS = ['b', 'a', 'c', 'd']                 # declared levels of a categorical
 UNIVERSE = {                                  # code -> label value (first appearance order != sorted order)
     'str': ['b', 'a', 'c'],
     'numstr': ['1', '0', '2'],
-    'int': [1, 0, 2],
+    'int': [8, 0, 16],                        # a python set of these iterates in insertion-dependent, unsorted order
     'float': [1.5, 0.0, -2.5],
     'cat': ['b', 'a', 'c'],
+    'catmix': ['b', 'a', 'c'],                # Categoricals whose members carry different level lists (see MIXLEVELS)
     'tuple': [(0, 1, 0), (1, 0, 0), (0, 0, 1)],
     'list1': ['b', 'a', 'c'],                 # delivered as ['b']
-    'list1n': [1, 0, 2],                      # delivered as [1]
+    'list1n': [8, 0, 16],                     # delivered as [1]
     'list1s': ['1', '0', '2'],                # delivered as ['1']   (what the LibSVM / Manik readers produce)
     'mstr': ['a', 'b', 'c'],                  # multi-label universes
-    'mint': [1, 0, 2],
+    'mint': [8, 0, 16],
     'mtup': ['a', 'b', 'c'],                  # label sets delivered as tuples
     'mnumstr': ['1', '0', '2'],
 }
 MSETS = [[1], [0], [2, 0], [0, 1], [], [1, 2], [2], [0, 1, 2]]     # multi-label code -> indexes into the universe
 MULTI = ('mstr', 'mint', 'mtup', 'mnumstr')
 LIST1 = ('list1', 'list1n', 'list1s')
+CATS = ('cat', 'catmix')
+# level list of the Categorical label of example i for 'catmix': another order, a superset, the reverse (data assembled from parts)
+MIXLEVELS = [['b', 'a', 'c', 'd'], ['c', 'd', 'a', 'b'], ['a', 'b', 'c', 'd', 'e'], ['d', 'c', 'a', 'b'], ['b', 'a', 'c', 'd']]
+ARFF2LEVELS = [['b', 'a', 'c', 'd'], ['c', 'd', 'a', 'b']]      # the two ARFF parts of the 'arff2d' / 'arff2s' deliveries
 
 LABEL_TYPES = {                               # label_type values enumerated per label kind (meaningless pairs are left out)
-    'str': [None, 'c'], 'numstr': [None, 'c', 'r'], 'int': [None, 'c', 'r'], 'float': [None, 'c', 'r'], 'cat': [None, 'c'],
+    'str': [None, 'c'], 'numstr': [None, 'c', 'r'], 'int': [None, 'c', 'r'], 'float': [None, 'c', 'r'], 'cat': [None, 'c'], 'catmix': [None, 'c'],
     'tuple': [None, 'c'], 'list1': [None, 'c', 'm'], 'list1n': [None, 'c', 'r', 'm'], 'list1s': [None, 'c', 'r', 'm'],
     'mstr': ['m'], 'mint': ['m'], 'mtup': ['m'], 'mnumstr': ['m'],
 }
 ADMISSIBLE = {                                # label_type=None: the statement does not say how the type is inferred
-    'str': ['c'], 'numstr': ['c'], 'cat': ['c'], 'tuple': ['c'], 'int': ['r', 'c'], 'float': ['r', 'c'],
+    'str': ['c'], 'numstr': ['c'], 'cat': ['c'], 'catmix': ['c'], 'tuple': ['c'], 'int': ['r', 'c'], 'float': ['r', 'c'],
     'list1': ['c', 'm'], 'list1n': ['c', 'm', 'r'], 'list1s': ['c', 'm'],
 }
 
-GROUP = {'str': 'scalar', 'numstr': 'scalar', 'int': 'scalar', 'float': 'scalar', 'cat': 'Categorical', 'tuple': 'tuple',
+GROUP = {'str': 'scalar', 'numstr': 'scalar', 'int': 'scalar', 'float': 'scalar', 'cat': 'Categorical', 'catmix': 'Categorical (members with different level lists)', 'tuple': 'tuple',
          'list1': 'list-valued', 'list1n': 'list-valued', 'list1s': 'list-valued'}      # label kinds as they appear in violation keys
 
 DENSE_F = [[10, 20], [11, 21], [12, 22], [13, 23], [14, 24]]
@@ -70,15 +75,22 @@ SPARSE_F = [{'f': 10, 'g': 20}, {'g': 21}, {}, {'f': 13}, {'f': 14, 'g': 24}]
 SPARSE_FI = [{1: 10, 2: 20}, {2: 21}, {}, {1: 13}, {1: 14, 2: 24}]
 
 
-def label_value(lab, code):
+def label_value(lab, code, i=0):
     """A fresh label object as the caller hands it to coba."""
     if lab in MULTI:
         v = [UNIVERSE[lab][i] for i in MSETS[code]]
         return tuple(v) if lab == 'mtup' else v
     u = UNIVERSE[lab][code]
     if lab == 'cat': return Categorical(u, list(LEVELS))
+    if lab == 'catmix': return Categorical(u, list(MIXLEVELS[i]))
     if lab in LIST1: return [u]
     return u
+
+
+class ChainSource(Source):
+    """Reads its part sources one after the other (data assembled from several files)."""
+    def __init__(self, parts): self._parts = parts
+    def read(self): return itertools.chain.from_iterable(p.read() for p in self._parts)
 
 
 def label_text(lab, code):
@@ -89,7 +101,8 @@ def label_text(lab, code):
 
 # ------------------------------------------------------------------ building the real inputs + the expected examples
 
-ROWFORM = {'prerows': 'pre-labelled dense rows', 'prehrows': 'pre-labelled headed dense rows', 'presrows': 'pre-labelled sparse rows',
+ROWFORM = {'arff2d': 'two arff dense parts', 'arff2s': 'two arff sparse parts',
+           'prerows': 'pre-labelled dense rows', 'prehrows': 'pre-labelled headed dense rows', 'presrows': 'pre-labelled sparse rows',
            'prearffd': 'pre-labelled arff dense', 'prearffs': 'pre-labelled arff sparse', 'precsvh': 'pre-labelled csv+header',
            'srows0': 'sparse rows without zero labels', 'hsrows': 'headed sparse rows', 'rows:pos': 'dense rows (positional call)', 'rows:srckw': 'dense rows (source= call)',
            'xy': '(X,Y)', 'pairs': 'source of (x,y) pairs', 'rows': 'dense rows', 'hrows': 'headed dense rows', 'srows': 'sparse rows',
@@ -109,8 +122,8 @@ def build(case):
     w = case.get('w', 2)
     col = case.get('col')
     by = case.get('by')
-    labs = [label_value(lab, c) for c in ys]            # reference copies
-    if lab == 'cat': labs = [str(l) for l in labs]
+    labs = [label_value(lab, c, i) for i, c in enumerate(ys)]            # reference copies
+    if lab in CATS: labs = [str(l) for l in labs]
 
     def pyfeat(i):
         if f == 'dense': return list(DENSE_F[i][:w])
@@ -128,11 +141,11 @@ def build(case):
     if d == 'xy':
         feats = [pyfeat(i) for i in range(n)]
         def make():
-            return ([pyfeat(i) for i in range(n)], [label_value(lab, c) for c in ys]), dict(kw)
+            return ([pyfeat(i) for i in range(n)], [label_value(lab, c, i) for i, c in enumerate(ys)]), dict(kw)
     elif d == 'pairs':
         feats = [pyfeat(i) for i in range(n)]
         def make():
-            return (ListSource([(pyfeat(i), label_value(lab, c)) for i, c in enumerate(ys)]),), dict(kw)
+            return (ListSource([(pyfeat(i), label_value(lab, c, i)) for i, c in enumerate(ys)]),), dict(kw)
     elif d in ('rows', 'hrows'):
         feats = [pyfeat(i) for i in range(n)]
         heads = ['f%d' % k for k in range(w)]
@@ -140,7 +153,7 @@ def build(case):
         def make():
             rows = []
             for i, c in enumerate(ys):
-                r = pyfeat(i); r.insert(col, label_value(lab, c)); rows.append(r)
+                r = pyfeat(i); r.insert(col, label_value(lab, c, i)); rows.append(r)
             src = ListSource(rows)
             if d == 'hrows': src = Pipes.join(src, HeadRows(list(heads)))
             return (src,), dict(kw, label_col=('y' if by == 'hdr' else col))
@@ -152,7 +165,7 @@ def build(case):
             rows = []
             for i, c in enumerate(ys):
                 r = {heads.index(h): v for h, v in feats[i].items()}
-                r[col] = label_value(lab, c)
+                r[col] = label_value(lab, c, i)
                 rows.append(r)
             return (Pipes.join(ListSource(rows), HeadRows(list(heads))),), dict(kw, label_col=('y' if by == 'hdr' else col))
     elif d in ('srows', 'srows0'):
@@ -162,7 +175,7 @@ def build(case):
             rows = []
             for i, c in enumerate(ys):
                 r = pyfeat(i)
-                v = label_value(lab, c)
+                v = label_value(lab, c, i)
                 if not (d == 'srows0' and v == 0): r[key] = v
                 rows.append(r)
             return (ListSource(rows),), dict(kw, label_col=key)
@@ -177,7 +190,9 @@ def build(case):
                 r = [str(v) for v in DENSE_F[i][:w]]; r.insert(col, label_text(lab, c)); lines.append(','.join(r))
             src = CsvSource(ListSource(lines), has_header=(d == 'csvh'))
             return (src,), dict(kw, label_col=('y' if by == 'hdr' else col))
-    elif d in ('arffd', 'arffs'):
+    elif d in ('arffd', 'arffs', 'arff2d', 'arff2s'):
+        two = d.startswith('arff2')           # the data comes in two ARFF parts that declare the label levels in different orders
+        d = 'arff' + d[-1]
         heads = ['f%d' % k for k in range(w)]
         heads.insert(col, 'y')
         if d == 'arffd':
@@ -185,12 +200,12 @@ def build(case):
         else:
             feats = [{'f%d' % k: float(DENSE_F[i][k]) for k in range(w) if (i + k) % 3 != 2} for i in range(n)]
         if lab == 'float': labs = [float(l) for l in labs]
-        decl = {'cat': '{' + ','.join(LEVELS) + '}', 'float': 'numeric', 'str': 'string'}[lab]
-        def make():
+        decl = {'cat': '{' + ','.join(LEVELS) + '}', 'catmix': None, 'float': 'numeric', 'str': 'string'}[lab]
+        def part(examples, decl):
             lines = ['@relation r']
             for h in heads: lines.append('@attribute %s %s' % (h, decl if h == 'y' else 'numeric'))
             lines.append('@data')
-            for i, c in enumerate(ys):
+            for i, c in examples:
                 if d == 'arffd':
                     r = [str(v) for v in DENSE_F[i][:w]]; r.insert(col, label_text(lab, c)); lines.append(','.join(r))
                 else:
@@ -199,7 +214,15 @@ def build(case):
                         if h == 'y': ent.append('%d %s' % (p, label_text(lab, c)))
                         elif h[1:] and ('f' + h[1:]) in feats[i]: ent.append('%d %s' % (p, DENSE_F[i][int(h[1:])]))
                     lines.append('{' + ','.join(ent) + '}')
-            return (ArffSource(ListSource(lines)),), dict(kw, label_col=('y' if by == 'hdr' else col))
+            return lines
+        def make():
+            ex = list(enumerate(ys))
+            if not two:
+                src = ArffSource(ListSource(part(ex, decl)))
+            else:
+                parts = [ex[:1], ex[1:]]
+                src = ChainSource([ArffSource(ListSource(part(e, '{' + ','.join(ARFF2LEVELS[k]) + '}'))) for k, e in enumerate(parts) if e or k == 0])
+            return (src,), dict(kw, label_col=('y' if by == 'hdr' else col))
     elif d in ('libsvm', 'manik'):
         feats = [{k: float(v) for k, v in SPARSE_FI[i].items()} for i in range(n)]
         if lab in MULTI: labs = [[str(x) for x in l] for l in labs]
@@ -286,23 +309,26 @@ class _Rec:
 
 
 class C14(Check):
+    _seen = {}            # per worker process: order key -> action lists already noted
+    _order_notes = []
     ID = 'C14'
     LEVEL = 'exploration'
     ENGINE = 'ENUM'
     RULE = ('cases = (delivery, feature container, label position / addressing, label kind, label_type, take, label sequence): example sets of '
             '0..3 (thorough 0..5; multi-label 0..4) examples, example i has fixed features (dense width 0/1/2, sparse with varying key sets incl. {}, scalar, string '
             'scalar, None) and the label chosen by the sequence; ALL label sequences over a 3-letter universe per label kind (str, int incl. 0, '
-            'float, Categorical with an unused declared level, [l] list-valued str/int, one-hot tuples; first-appearance order != sorted order) and, '
+            'float, Categorical with an unused declared level, Categoricals whose members carry DIFFERENT level lists (other order, superset, reverse; X,Y / pairs / rows and a source chaining two ARFF parts that declare {b,a,c,d} and {c,d,a,b}), int labels {8,0,16} (set iteration order != sorted, insertion dependent), [l] list-valued str/int, one-hot tuples; first-appearance order != sorted order) and, '
             'for multi-label, ALL sequences over the 8 subsets (incl. the empty set) of a 3-label universe (lists of str / int, tuples); label_type in '
             '{None,c,r,m} where meaningful for the label kind; delivery in {(X,Y), source of (x,y) pairs, dense rows + label_col index at every position, '
             'HeadRows dense rows by header / index, sparse rows with str / int label key, sparse rows that omit a 0 label, HeadRows sparse rows by header / '
             'index, PRE-LABELLED sources (dense / headed / sparse rows, ARFF dense+sparse and CSV reader pipelines joined with LabelRows(label, declared type) by the caller, simulation built from the source only) x every declared type in {None,c,r,m} x every requested label_type in {None,c,r,m} meaningful for the label kind (take in {None,2}), positional and source= call styles, CSV (with/without header, by index / header), ARFF dense and sparse (nominal / numeric / string '
             'label attribute, by header / index, every position), LibSVM, Manik (single and comma-separated labels)}; take in {None,0,1,2,N,N+1} for every '
             'source delivery; enumerated exhaustively, fewest examples first. Every case is read twice from fresh objects (SupervisedSimulation.read and '
-            'Environments.from_supervised(...)[0].read). A case is non-trivial when the real code produced at least one interaction (which is then compared '
+            'Environments.from_supervised(...)[0].read); the raw object is read a second time (same action list), the action list of every clean case without take is pooled per (delivery, label kind, label types, SET of labels) and post() demands ONE list per pool (fixed order over all sequences / numbers of examples), and 25x2 string-labelled data sets (c and m, X,Y / rows / csv / arff / libsvm / manik) are read again in 3 fresh interpreters with PYTHONHASHSEED 1,2,3 (same list as in this process). A case is non-trivial when the real code produced at least one interaction (which is then compared '
             'completely: context, rewards, actions) and, for classification, the delivered examples carry >=2 distinct labels')
     ASSUMPTIONS = [
-        'order of the action list is not constrained (only: one list, identical on every interaction, no duplicates)',
+        'WHICH order the action list has is not constrained; demanded is that it is fixed: identical on every interaction, on a second read, for every sequence / number of examples with the same label set (same delivery and types, no take) and in processes with other hash seeds; no duplicates',
+        'Categoricals with different level lists: all labels lie in the level list of the first label (a label outside it has no action in coba: not explored); the order of the actions follows the first label there, so the fixed-order-over-sequences clause is not evaluated for them',
         'Categorical labels: the declared levels count as the labels of the data, i.e. the action set must contain every distinct label and only declared levels (sparse ARFF: plus the level "0" that the ARFF reader adds on purpose)',
         'with take the action set may be the distinct labels of the sample or of the whole data (the statement does not say which)',
         'label_type=None: how the type is inferred is not constrained; the interactions must satisfy the complete reference model of one admissible type (numeric: regression or classification; [l]: classification or multi-label; str/Categorical/tuple: classification)',
@@ -363,6 +389,15 @@ class C14(Check):
     def shapes(tier):
         """(delivery, feature kind, dense width, label position, label addressed by, label kind)"""
         py = ['str', 'int', 'float', 'cat', 'list1', 'list1n', 'tuple', 'mstr', 'mint'] + (['mtup'] if tier != 'quick' else [])
+        for f in ('dense', 'scalar'):                      # Categorical labels whose members carry different level lists
+            yield 'xy', f, (2 if f == 'dense' else None), None, None, 'catmix'
+        yield 'pairs', 'dense', 2, None, None, 'catmix'
+        for col in (0, 2):
+            yield 'rows', 'dense', 2, col, 'idx', 'catmix'
+        yield 'srows', 'sparse', None, None, 'hdr', 'catmix'
+        for d in ('arff2d', 'arff2s'):
+            for col, by in ((1, 'hdr'), (1, 'idx'), (0, 'hdr'), (2, 'hdr')):
+                yield d, 'dense', 2, col, by, 'catmix'
         for lab in py:
             for f in ('dense', 'sparse', 'scalar', 'sscalar', 'none'):
                 if lab in MULTI and f not in ('dense', 'sparse'): continue
@@ -425,7 +460,13 @@ class C14(Check):
         report, nontrivial, outcomes = self._eval(case)
         for o in outcomes: acc.outcome(o)
         if nontrivial: acc.mark_nontrivial()
-        if not report: return
+        if not report:
+            # fixed order (a): remember the action list per (delivery, label kind, types, SET of labels); post() demands one list per key
+            for okey, alist in self._order_notes:
+                seen = self._seen.setdefault(okey, set())
+                if alist not in seen:
+                    seen.add(alist); acc.note(okey, [json.dumps([alist, case['ys']])])
+            return
         key, what = report[0]
         if case.get('take') is not None and '|take given' not in key:
             # classify: the same example set without take decides whether the sampling step or something else is at fault
@@ -462,6 +503,7 @@ class C14(Check):
         feat = f'{rowform} label_col={by}'
         nontrivial = False
         outcomes = []
+        self._order_notes = []
 
         results = {}
         for level in ('raw', 'envs'):
@@ -469,7 +511,8 @@ class C14(Check):
             args, kw = make()
             try:
                 if level == 'raw':
-                    got = list(SupervisedSimulation(*args, **kw).read())
+                    sim = SupervisedSimulation(*args, **kw)
+                    got = list(sim.read())
                 else:
                     envs = Environments.from_supervised(*args, **kw)
                     if len(envs) != 1:
@@ -487,6 +530,20 @@ class C14(Check):
                 if best is None or (best.v and not rec.v): best = rec
                 if not rec.v: break
             results[level] = best.v
+            if level == 'raw' and not best.v and got and best.kind in ('c', 'm'):
+                first = got[0]['actions']
+                # fixed order (b): a second read of the same object offers the same list (whether it can be read again at all is C04)
+                try:
+                    again = list(sim.read())
+                except Exception:   # noqa
+                    again = []
+                if len(again) == len(got) and [list(it['actions']) for it in again] != [list(first)] * len(got):
+                    results[level] = [(f'{comp}|action list differs on re-reading|' + {'c': 'classification', 'm': 'multi-label'}[best.kind],
+                                       f'first read offers {list(first)!r}, second read {[list(it["actions"]) for it in again][:1]!r}: {case}')]
+                elif take is None and lab != 'catmix':
+                    ls = sorted({srepr(x) for j in idx for x in (labs[j] if best.kind == 'm' else [labs[j][0] if isinstance(labs[j], list) else labs[j]])})
+                    okey = json.dumps(['order', best.kind, {k: v for k, v in case.items() if k not in ('ys', 'take')}, ls], sort_keys=True)
+                    self._order_notes.append((okey, srepr(list(first))))
             if level == 'raw':
                 ndist = len({repr(labs[j]) for j in idx})
                 if got and (kinds[0] != 'c' or ndist >= 2): nontrivial = True
@@ -494,6 +551,104 @@ class C14(Check):
         # an envs-level finding is reported only when the raw read of the same case is clean (one root cause, one key)
         report = results['raw'] or results['envs']
         return report[:1], nontrivial, outcomes
+
+    # -------------------------------------------------------------- fixed order across example sequences and across processes
+    def raw_actions(self, case):
+        make, _, _ = build(case)
+        args, kw = make()
+        got = list(SupervisedSimulation(*args, **kw).read())
+        return srepr(list(got[0]['actions'])) if got else None
+
+    def hash_cases(self):
+        """String-labelled data whose action list must not depend on the hash seed of the interpreter."""
+        out = []
+        for ys in ([0, 1, 2], [2, 1, 0]):
+            out += [{'d': 'xy', 'lab': 'str', 'lt': 'c', 'ys': ys, 'f': 'dense', 'w': 2},
+                    {'d': 'xy', 'lab': 'list1', 'lt': None, 'ys': ys, 'f': 'dense', 'w': 2},
+                    {'d': 'xy', 'lab': 'list1', 'lt': 'm', 'ys': ys, 'f': 'sparse'},
+                    {'d': 'pairs', 'lab': 'str', 'lt': None, 'ys': ys, 'f': 'dense', 'w': 2},
+                    {'d': 'rows', 'lab': 'str', 'lt': 'c', 'ys': ys, 'f': 'dense', 'w': 2, 'col': 1, 'by': 'idx'},
+                    {'d': 'csvh', 'lab': 'str', 'lt': None, 'ys': ys, 'f': 'dense', 'w': 2, 'col': 2, 'by': 'hdr'},
+                    {'d': 'csv', 'lab': 'numstr', 'lt': 'c', 'ys': ys, 'f': 'dense', 'w': 2, 'col': 0, 'by': 'idx'},
+                    {'d': 'arffd', 'lab': 'str', 'lt': 'c', 'ys': ys, 'f': 'dense', 'w': 2, 'col': 1, 'by': 'hdr'},
+                    {'d': 'arffs', 'lab': 'cat', 'lt': None, 'ys': ys, 'f': 'dense', 'w': 2, 'col': 1, 'by': 'hdr'},
+                    {'d': 'libsvm', 'lab': 'list1s', 'lt': None, 'ys': ys, 'f': 'sparsei'},
+                    {'d': 'manik', 'lab': 'list1s', 'lt': 'c', 'ys': ys, 'f': 'sparsei'},
+                    {'d': 'libsvm', 'lab': 'list1s', 'lt': 'm', 'ys': ys, 'f': 'sparsei'},
+                    {'d': 'prerows', 'lab': 'list1', 'lt': None, 'decl': 'm', 'ys': ys, 'f': 'dense', 'w': 2, 'col': 1, 'by': 'idx'}]
+        for ys in ([7], [3, 5], [6, 1, 0], [5, 3, 2]):
+            out += [{'d': 'xy', 'lab': 'mstr', 'lt': 'm', 'ys': ys, 'f': 'dense', 'w': 2},
+                    {'d': 'xy', 'lab': 'mtup', 'lt': 'm', 'ys': ys, 'f': 'dense', 'w': 2},
+                    {'d': 'pairs', 'lab': 'mstr', 'lt': 'm', 'ys': ys, 'f': 'dense', 'w': 2},
+                    {'d': 'srows', 'lab': 'mstr', 'lt': 'm', 'ys': ys, 'f': 'sparse', 'by': 'hdr'},
+                    {'d': 'libsvm', 'lab': 'mnumstr', 'lt': 'm', 'ys': ys, 'f': 'sparsei'},
+                    {'d': 'manik', 'lab': 'mnumstr', 'lt': 'm', 'ys': ys, 'f': 'sparsei'}]
+        return out
+
+    def probe(self, cases, hashseed):
+        """The action lists of `cases` as read by a fresh interpreter started with PYTHONHASHSEED=hashseed."""
+        env = dict(os.environ, PYTHONHASHSEED=str(hashseed), PYTHONPATH=f'{VERIF}:{REPO}', COBA_REPO=REPO, PYTHONDONTWRITEBYTECODE='1')
+        src = ('import sys, json, os\nfrom vf.props.c14 import CHECK\nimport coba\n'
+               'print("C14-RESULT " + json.dumps({"file": os.path.realpath(os.path.dirname(os.path.dirname(coba.__file__))), "seed": os.environ.get("PYTHONHASHSEED"),'
+               ' "lists": [CHECK.raw_actions(c) for c in json.loads(sys.argv[1])]}))')
+        try:
+            p = subprocess.run([sys.executable, '-B', '-W', 'ignore', '-c', src, json.dumps(cases)], env=env, capture_output=True, text=True, timeout=300, cwd='/')
+        except subprocess.TimeoutExpired:
+            raise HarnessError('hash-seed subprocess did not finish in 300 s')
+        line = [l for l in p.stdout.splitlines() if l.startswith('C14-RESULT ')]
+        if p.returncode != 0 or not line:
+            raise HarnessError(f'hash-seed subprocess failed rc={p.returncode}: {p.stderr[-800:]}')
+        got = json.loads(line[0][len('C14-RESULT '):])
+        if got['file'] != REPO or got['seed'] != str(hashseed):
+            raise HarnessError(f'hash-seed subprocess imported coba from {got["file"]} with hash seed {got["seed"]}')
+        return got['lists']
+
+    @staticmethod
+    def order_kind(case):
+        lt = case['lt'] if case['lt'] is not None else case.get('decl') if case.get('decl', NA) != NA else None
+        return {'c': 'classification', 'm': 'multi-label', None: 'classification'}[lt]
+
+    def check_hashseeds(self, cases, seeds, acc):
+        here = [self.raw_actions(c) for c in cases]
+        for h in seeds:
+            there = self.probe(cases, h)
+            acc.count('hashseed_process_reads', len(cases))
+            for i, (c, a, b) in enumerate(zip(cases, here, there)):
+                if a != b:
+                    acc.violation(f'SupervisedSimulation|action list order depends on the hash seed of the process|{self.order_kind(c)}',
+                                  f'this process (PYTHONHASHSEED={os.environ.get("PYTHONHASHSEED")}) offers {a}, a fresh process with PYTHONHASHSEED={h} offers {b}: {c}',
+                                  {'mode': 'hashseed', 'case': c, 'seed': h}, order=(10 ** 9, h, i))
+
+    def post(self, acc, tier):
+        # (a) one action list per label SET, whatever the sequence / number of the examples
+        for n, (okey, vals) in enumerate(sorted(acc.notes.items())):
+            if not okey.startswith('["order"'): continue
+            by = {}
+            for v in vals:
+                alist, ys = json.loads(v)
+                if alist not in by or (len(ys), ys) < (len(by[alist]), by[alist]): by[alist] = ys
+            acc.count('order_keys')
+            if len(by) > 1:
+                _, kind, desc, ls = json.loads(okey)
+                (a1, y1), (a2, y2) = sorted(by.items(), key=lambda kv: (len(kv[1]), kv[1]))[:2]
+                acc.violation('SupervisedSimulation|action list order depends on the sequence of the examples|' + {'c': 'classification', 'm': 'multi-label'}[kind],
+                              f'labels {ls}: example labels {y1} offer {a1}, example labels {y2} offer {a2}: {desc}',
+                              {'mode': 'pair', 'cases': [dict(desc, ys=y1), dict(desc, ys=y2)]}, order=(10 ** 9 - 1, n))
+        # (c) string labels: the list is the same in fresh interpreters with other hash seeds
+        self.check_hashseeds(self.hash_cases(), (1, 2, 3), acc)
+        return {'hashseed_processes': 3}
+
+    def replay(self, witness, acc):
+        mode = witness.get('mode') if isinstance(witness, dict) else None
+        if mode == 'pair':
+            a, b = (self.raw_actions(c) for c in witness['cases'])
+            if a != b:
+                acc.violation('SupervisedSimulation|action list order depends on the sequence of the examples|' + self.order_kind(witness['cases'][0]),
+                              f'{witness["cases"][0]} offers {a}, {witness["cases"][1]} offers {b}', witness)
+            return
+        if mode == 'hashseed':
+            return self.check_hashseeds([witness['case']], (witness['seed'],), acc)
+        return self.run_case(witness, acc)
 
     # -------------------------------------------------------------- the reference model
     def compare(self, comp, level, kind, got, idx, feats, labs, case, feat, rec):
@@ -529,7 +684,7 @@ class C14(Check):
         for k, ((form, val), e) in enumerate(zip(mats, exp_ctx)):
             if form == expected_form(e) and val == e: continue
             j = idx[k]
-            rawlab = label_value(lab, case['ys'][j])
+            rawlab = label_value(lab, case['ys'][j], j)
             inside = (isinstance(val, dict) and len(val) == len(e) + 1 and all(val.get(a) == b for a, b in e.items())) if isinstance(e, dict) else \
                      (isinstance(val, list) and isinstance(e, list) and len(val) == len(e) + 1)
             if inside:
@@ -543,7 +698,7 @@ class C14(Check):
         if kind == 'c':
             delist = lambda l: l[0] if isinstance(l, list) else l
             want = [delist(labs[j]) for j in idx]
-            onehot = level == 'envs' and lab == 'cat'
+            onehot = level == 'envs' and lab in CATS
             A0 = got[0]['actions'] if got else None
             for k, it in enumerate(got):
                 A = it['actions']
@@ -558,8 +713,8 @@ class C14(Check):
                 sample_d = [l for i, l in enumerate(want) if l not in want[:i]]
                 all_want = [delist(l) for l in labs]
                 all_d = [l for i, l in enumerate(all_want) if l not in all_want[:i]]
-                if lab == 'cat':
-                    allowed = LEVELS + (['0'] if d.endswith('arffs') else [])
+                if lab in CATS:
+                    allowed = LEVELS + (['e'] if lab == 'catmix' else []) + (['0'] if d.endswith(('arffs', 'arff2s')) else [])
                     if onehot:
                         ok = len(sample_d) <= len(A) <= len(allowed)
                     else:
